@@ -132,7 +132,7 @@ fn setregs_at(rng: &mut Rng, rip: u64) -> String {
 }
 
 /// a random branchy program over mov/add/sub/cmp/inc/dec/jcc/jmp/call/ret/push/pop/nop
-fn random_program(rng: &mut Rng, n: usize, rets: bool) -> Vec<Ins> {
+pub fn random_program(rng: &mut Rng, n: usize, rets: bool) -> Vec<Ins> {
     let mut p = vec![];
     for _ in 0..n {
         let r = rng.below(4) as u8; // rax rcx rdx rbx
@@ -158,7 +158,7 @@ fn random_program(rng: &mut Rng, n: usize, rets: bool) -> Vec<Ins> {
     p
 }
 
-fn emit_new(out: &mut Vec<String>, code: &[u8], base: u64) {
+pub fn emit_new(out: &mut Vec<String>, code: &[u8], base: u64) {
     out.push(format!("new {} {:x} {:x}", hex(code), base, base));
     dec_all(code, base, out);
 }
